@@ -129,14 +129,25 @@ package taskctl
 //@ func (*PgidExecutor).Execute
 //@   trusted runs the command through mvdan/sh and os/exec (C20 territory): no access to task state
 //@   modifies nothing
+// what the listener (the pipeline runner's HandleTaskChange) was last told about a task: ghost snapshots taken at
+// every notification; execute must not return with changes it has not announced
+//@ ghost $toldEnd array Int
+//@ ghost $toldErrored array Bool
+//@ ghost $toldExit array Int
 //@ func (*TaskRunner).notifyTaskChange
 //@   safety
-//@   requires [nonnil] r != nil
-//@   modifies nothing
+//@   requires [nonnil] r != nil && t != nil
+//@   ensures  [told] $toldEnd[t] == t.End && $toldErrored[t] == t.Errored && $toldExit[t] == t.ExitCode
+//@   trusted the listener is an injected function value; the ghost snapshots stand for 'the listener has seen this state'
+//@   modifies $toldEnd@[t], $toldErrored@[t], $toldExit@[t]
 //@ func (*TaskRunner).execute
 //@   requires [nonnil] r != nil && t != nil
+//@   ensures  [C08.announced] (t.End == old(t.End) || $toldEnd[t] == t.End) && (t.Errored == old(t.Errored) || $toldErrored[t] == t.Errored) && (t.ExitCode == old(t.ExitCode) || $toldExit[t] == t.ExitCode)
+//@   ensures  [C15.taskEnd] res == nil ==> t.End >= t.Start
+//@   loop 1 invariant [announced] t.End == old(t.End) && (t.ExitCode == old(t.ExitCode) || $toldExit[t] == t.ExitCode) && t.Start <= $clock
 //@   ensures  [C08.errorVerdict] t.Errored && !old(t.Errored) ==> res != nil && t.Error == res
 //@   ensures  [C08.successVerdict] res == nil ==> t.Errored == old(t.Errored) && t.Error == old(t.Error)
 //@   loop 1 invariant [untouched] t.Errored == old(t.Errored) && t.Error == old(t.Error)
 //@ property C08: taskctl.(*TaskRunner).execute/ensures* taskctl.(*TaskRunner).execute/loop* taskctl.(*Scheduler).Schedule$1/ensures*
 //@ property C12: taskctl.(*FileOutputStore).Remove/*
+//@ property C15: taskctl.(*TaskRunner).execute/ensures[C15.*] taskctl.(*TaskRunner).execute/loop*
